@@ -9,14 +9,15 @@ from . import mirsym, models, poly, common
 from .mirsym import Agg, Enum, Ref, SliceRef, Panic, Unsupported, run_paths, find_item, Frame, Item
 from .poly import FE
 from .common import Ob
-from .models import D, UNIT, some, none, IterObj, as_items
+from .models import D, UNIT, some, none, ok, err, IterObj, as_items
 
 SMUL = z3.Function('smul', z3.IntSort(), z3.IntSort(), z3.IntSort())
 
 class EP:
-    """inner curve point (arkworks Projective / Affine) or a min_curve Element, as a term of the free abelian group"""
-    __slots__ = ('t', 'kind')
-    def __init__(s, t, kind): s.t, s.kind = t, kind
+    """inner curve point (arkworks Projective / Affine) or a min_curve Element, as a term of the free abelian group.
+    `valid`: derived only from validated sources (decode, constants, Elligator, group operations on valid points)"""
+    __slots__ = ('t', 'kind', 'valid')
+    def __init__(s, t, kind, valid=True): s.t, s.kind, s.valid = t, kind, valid
     def __repr__(s): return f'EP[{s.kind}]({s.t})'
     def __deepcopy__(s, memo): return s
 
@@ -47,21 +48,21 @@ def g_models(build):
     P = r'ark_ec::twisted_edwards::(Projective|Affine)<ark_curve::edwards::Decaf377EdwardsConfig>'
     def kind_of(fn):
         m = re.match(r'^<ark_ec::twisted_edwards::(Projective|Affine)<', fn); return 'proj' if m.group(1) == 'Projective' else 'aff'
-    def m_add(I, fr, fn, a): return EP(_ep(I, a[0]).t + _ep(I, a[1]).t, 'proj')
-    def m_sub(I, fr, fn, a): return EP(_ep(I, a[0]).t - _ep(I, a[1]).t, 'proj')
-    def m_neg(I, fr, fn, a): return EP(-_ep(I, a[0]).t, kind_of(fn))
+    def m_add(I, fr, fn, a): return EP(_ep(I, a[0]).t + _ep(I, a[1]).t, 'proj', _ep(I, a[0]).valid and _ep(I, a[1]).valid)
+    def m_sub(I, fr, fn, a): return EP(_ep(I, a[0]).t - _ep(I, a[1]).t, 'proj', _ep(I, a[0]).valid and _ep(I, a[1]).valid)
+    def m_neg(I, fr, fn, a): return EP(-_ep(I, a[0]).t, kind_of(fn), _ep(I, a[0]).valid)
     def m_add_assign(I, fr, fn, a): I.store(a[0], EP(_ep(I, a[0]).t + _ep(I, a[1]).t, 'proj')); return UNIT
     def m_sub_assign(I, fr, fn, a): I.store(a[0], EP(_ep(I, a[0]).t - _ep(I, a[1]).t, 'proj')); return UNIT
-    def m_mul_assign(I, fr, fn, a): I.store(a[0], EP(smul(_ep(I, a[0]).t, D(I, a[1])), 'proj')); return UNIT
-    def m_mul(I, fr, fn, a): return EP(smul(_ep(I, a[0]).t, D(I, a[1])), 'proj')
+    def m_mul_assign(I, fr, fn, a): I.store(a[0], EP(smul(_ep(I, a[0]).t, D(I, a[1])), 'proj', _ep(I, a[0]).valid)); return UNIT
+    def m_mul(I, fr, fn, a): return EP(smul(_ep(I, a[0]).t, D(I, a[1])), 'proj', _ep(I, a[0]).valid)
     def m_into(I, fr, fn, a):
         m = re.match(r'^<ark_ec::twisted_edwards::(\w+)<.*> as core::convert::(?:Into|From)<ark_ec::twisted_edwards::(\w+)<.*>>>::(into|from)$', fn)
         dst = m.group(2) if m.group(3) == 'into' else m.group(1)
-        return EP(_ep(I, a[0]).t, 'proj' if dst == 'Projective' else 'aff')
+        return EP(_ep(I, a[0]).t, 'proj' if dst == 'Projective' else 'aff', _ep(I, a[0]).valid)
     def m_zero(I, fr, fn, a): return EP(z3.IntVal(0), kind_of(fn) if fn.startswith('<') else ('proj' if 'Projective' in fn else 'aff'))
     def m_double_in_place(I, fr, fn, a):
         p = _ep(I, a[0]); I.store(a[0], EP(p.t + p.t, 'proj')); return a[0]
-    def m_mul_bigint(I, fr, fn, a): return EP(smul(_ep(I, a[0]).t, bigint_scalar(I, a[1])), 'proj')
+    def m_mul_bigint(I, fr, fn, a): return EP(smul(_ep(I, a[0]).t, bigint_scalar(I, a[1])), 'proj', _ep(I, a[0]).valid)
     def m_min_add(I, fr, fn, a):
         x, y = D(I, a[0]), D(I, a[1])
         if not isinstance(x, EP): return NotImplemented
@@ -487,3 +488,114 @@ def check_scalar_mul_wiring(build):
         run1(f'ark:vartime_multiscalar_mul with {ns} scalars and {npnt} points = sum of the first {n} products', body,
              lambda n=n: z3.Sum([SMUL(z3.Int(f'P{i}'), z3.Int(f'k{i}')) for i in range(n)]) if n else z3.IntVal(0))
     return obs
+
+
+# ---------------------------------------------------------------------------------------------- C06: constructors hand out valid elements only
+def check_constructors():
+    """every public constructor of the arkworks build returns a point derived only from validated sources
+    (decode output, the constants, Elligator, group operations / conversions of valid points) - never a raw curve point"""
+    from .curve import items_for
+    from . import wiring
+    items = items_for('ark'); obs = []
+    M = wiring.w_models('ark')
+    fresh = [0]
+    def raw_point(kind):
+        fresh[0] += 1
+        return EP(z3.Int(f'raw{fresh[0]}'), kind, valid=False)
+    def m_ark_from_random_bytes(I, fr, fn, a):
+        if I.ctx.decide(z3.Bool(I.ctx.fresh('ark_accepts'))): return some(raw_point('aff'))
+        return none()
+    def m_ark_rand(I, fr, fn, a): return raw_point('proj')
+    def m_inner_serialize(I, fr, fn, a):
+        n = I.ctx.__dict__.setdefault('nser', 0) + 1; I.ctx.nser = n
+        tgt = a[1]; arr = I.deref(tgt.base)
+        for i in range(32): arr[tgt.start + i] = z3.BitVec(f'ser{n}_{i}', 8)
+        return ok(UNIT)
+    def m_batch(I, fr, fn, a):
+        sl = a[0]; xs = I.deref(sl)
+        return Agg('alloc::vec::Vec', [[EP(x.t, 'aff', x.valid) for x in xs]])
+    def m_vec_index_full(I, fr, fn, a):
+        v = I.deref(a[0]); return SliceRef(Ref(a[0].frame, a[0].local, list(a[0].path) + [0]), 0, len(v.fields[0]))
+    P = r'ark_ec::twisted_edwards::(Projective|Affine)<ark_curve::edwards::Decaf377EdwardsConfig>'
+    M['fns'] = [(rf'^<{P} as ark_ec::AffineRepr>::from_random_bytes$', m_ark_from_random_bytes), (rf'^<{P} as ark_ff::UniformRand>::rand::<.*>$', m_ark_rand),
+                (rf'^<{P} as ark_serialize::CanonicalSerialize>::serialize_compressed::', m_inner_serialize),
+                (rf'^<{P} as ark_ec::CurveGroup>::normalize_batch$', m_batch), (rf'^<{P} as ark_ec::ScalarMul>::batch_convert_to_mul_base$', m_batch),
+                (r'^<(alloc|ark_ff|ark_std|std)::vec::Vec<.*> as core::ops::Index<core::ops::RangeFull>>::index$', m_vec_index_full)] + M['fns']
+    M['consts'] = [(r'^ark_curve::element::projective::Element::GENERATOR$', lambda I, fr, path: Agg(ELEM_TY['ark'], [EP(z3.Int('B'), 'proj')])),
+                   (r'^ark_curve::element::projective::Element::IDENTITY$', lambda I, fr, path: Agg(ELEM_TY['ark'], [EP(z3.IntVal(0), 'proj')]))] + M.get('consts', [])
+    def points_of(v, I):
+        if isinstance(v, EP): return [v]
+        if isinstance(v, (Ref, SliceRef)): return points_of(I.deref(v), I)
+        if isinstance(v, (Agg, Enum)): return [p for f in v.fields for p in points_of(f, I)]
+        if isinstance(v, list): return [p for f in v for p in points_of(f, I)]
+        return []
+    E = r'^ark_curve::element::<impl at src/ark_curve/element.rs:\d+:1: \d+:\d+>::'
+    def elems(h, n):
+        xs = [Agg(ELEM_TY['ark'], [EP(z3.Int(f'P{i}'), 'proj')]) for i in range(n)]
+        h.locals['v'] = xs; return SliceRef(Ref(h, 'v', []), 0, n)
+    todo = [('AffineRepr::zero', E + 'zero$', lambda I, h: [], None), ('AffineRepr::generator', ('::generator$', r'AffineRepr for AffinePoint'), lambda I, h: [], None),
+            ('Group::generator', ('::generator$', r'Group for Element'), lambda I, h: [], None),
+            ('CurveGroup::into_affine', E + 'into_affine$', lambda I, h: [mk_value('ark', ELEM_TY['ark'], 'L', h)[0]], None),
+            ('AffineRepr::clear_cofactor', E + 'clear_cofactor$', lambda I, h: [mk_value('ark', '&' + AFF_TY, 'L', h)[0]], None),
+            ('AffineRepr::mul_by_cofactor_to_group', E + 'mul_by_cofactor_to_group$', lambda I, h: [mk_value('ark', '&' + AFF_TY, 'L', h)[0]], None),
+            ('Default for Element', r'^ark_curve::element::projective::<impl at [^>]*>::default$', lambda I, h: [], None),
+            ('Default for AffinePoint', r'^ark_curve::element::affine::<impl at [^>]*>::default$', lambda I, h: [], None),
+            ('Distribution<Element>::sample', ('^ark_curve::rand::.*::sample$', r'Distribution<Element>'), lambda I, h: [Ref(h, 'dist', []), Ref(h, 'rng', [])], None),
+            ('Distribution<AffinePoint>::sample', ('^ark_curve::rand::.*::sample$', r'Distribution<AffinePoint>'), lambda I, h: [Ref(h, 'dist', []), Ref(h, 'rng', [])], None)]
+    for n in (0, 1, 3):
+        todo.append((f'CurveGroup::normalize_batch of {n} elements', E + 'normalize_batch$', lambda I, h, n=n: [elems(h, n)], ('batch', n)))
+        todo.append((f'ScalarMul::batch_convert_to_mul_base of {n} elements', E + 'batch_convert_to_mul_base$', lambda I, h, n=n: [elems(h, n)], ('batch', n)))
+    for L in list(range(0, 81)):
+        todo.append((f'AffineRepr::from_random_bytes on {L} bytes', E + 'from_random_bytes$', lambda I, h, L=L: [_bytes_slice(h, L)], 'frb'))
+    frb_bad = []; frb_paths = 0
+    for name, pat, mk, extra in todo:
+        try: it = mirsym.find_item_hdr(items, pat[0], pat[1]) if isinstance(pat, tuple) else find_item(items, pat)
+        except Unsupported as e:
+            obs.append(Ob('ark:' + name, 'inconclusive', str(e), 0, 'mirsym/G')); continue
+        nm = f'ark:{name} returns only valid elements'
+        def body(I, h, it=it, mk=mk):
+            h.locals['dist'] = Agg('Standard', []); h.locals['rng'] = models.Opaque('rng')
+            I.ctx.loop_budget = 3
+            return I.call_item(it, mk(I, h))
+        def hook(ctx): pass
+        try:
+            recs = _run_bounded(items, M, body)
+        except Exception as e:
+            obs.append(Ob(nm, 'inconclusive', f'{type(e).__name__}: {e} :: ' + ' <- '.join(getattr(e, 'mir_stack', [])[:3]), 0, 'mirsym/G')); continue
+        bad = None; npaths = 0
+        for r in recs:
+            if 'pruned' in r: continue
+            npaths += 1
+            if 'panic' in r: bad = 'panics: ' + r['panic']; break
+            pts = points_of(r['result'], r['interp'])
+            if any(not p.valid for p in pts): bad = 'returns a raw curve point that was never validated (path: ' + ', '.join(str(c) for c in r['path'][:4]) + ')'; break
+            if isinstance(extra, tuple) and extra[0] == 'batch':
+                ts = [str(p.t) for p in pts]
+                if ts != [f'P{i}' for i in range(extra[1])]: bad = f'batch output {ts} is not the input sequence'; break
+        if extra == 'frb':
+            frb_paths += npaths
+            if bad: frb_bad.append((name, bad))
+            continue
+        if bad: obs.append(Ob(nm, 'violated', bad, 0, 'mirsym path enumeration (validity provenance)', None, {'kind': 'constructor', 'which': name}))
+        else: obs.append(Ob(nm, 'proved', f'{npaths} paths', 0, 'mirsym path enumeration (validity provenance)', {'paths': npaths}))
+    if frb_bad: obs.append(Ob('ark:AffineRepr::from_random_bytes returns only valid elements (lengths 0..=80)', 'violated', '; '.join(f'{a}: {b}' for a, b in frb_bad[:3]), 0, 'mirsym path enumeration (validity provenance)', None, {'kind': 'constructor', 'which': 'from_random_bytes', 'lengths': [a for a, _ in frb_bad][:10]}))
+    else: obs.append(Ob('ark:AffineRepr::from_random_bytes returns only valid elements (lengths 0..=80)', 'proved', f'{frb_paths} paths over 81 lengths', 0, 'mirsym path enumeration (validity provenance)', {'paths': frb_paths}))
+    return obs
+
+def _bytes_slice(h, L):
+    h.locals['buf'] = [z3.BitVec(f'b{i}', 8) for i in range(L)]
+    return SliceRef(Ref(h, 'buf', []), 0, L)
+
+def _run_bounded(items, M, body, max_decode_rejections=2):
+    """run_paths, pruning paths on which the rejection-sampling loop has rejected more than `max_decode_rejections` candidates"""
+    def body2(I, h):
+        orig = I.ctx.decide
+        def decide(cond, key=None):
+            r = orig(cond, key)
+            if z3.is_app(cond) and cond.decl().name() == 'decode_accepts' and r is False:
+                I.ctx.rej = getattr(I.ctx, 'rej', 0) + 1
+                if I.ctx.rej > max_decode_rejections: raise mirsym.PathEnd('rejection loop bound')
+            return r
+        I.ctx.decide = decide
+        return body(I, h)
+    return run_paths(items, M, body2)
